@@ -69,6 +69,8 @@ def gen_point(rng, meas=MEAS, allow_no_time=False, extra_tag_vals=(), extra_meas
             fields[k] = rng.choice(FIELD_VALS)
     p["tags"] = tags
     p["fields"] = fields
+    if p["t"] is not None and rng.random() < 0.15:
+        p["assign"] = True  # built as Point() and filled in by attribute assignment
     return p
 
 
@@ -213,9 +215,9 @@ def gen_update_args(rng, opts=None):
         if rng.random() < 0.4:
             if rng.random() < 0.5:
                 n = rng.choice([1, 1, 2])
-                a["fields"] = {"static": {rng.choice(FIELD_KEYS + ["n", "xy", ""]): rng.choice(FIELD_VALS) for _ in range(n)}}
+                a["fields"] = {"static": {rng.choice(FIELD_KEYS + ["n", "xy", ""]): rng.choice(FIELD_VALS + [2.0000000001, 1.0000000000000002]) for _ in range(n)}}
             else:
-                a["fields"] = {"call": rng.choice(["fields_inc_x", "fields_only_new", "fields_empty", "fields_same", "fields_none_y", "fields_inplace_set", "fields_inplace_clear"])}
+                a["fields"] = {"call": rng.choice(["fields_inc_x", "fields_only_new", "fields_empty", "fields_same", "fields_none_y", "fields_inplace_set", "fields_inplace_clear", "fields_nudge_x", "fields_scale_x"])}
         if rng.random() < 0.25:
             ks = rng.sample(TAG_KEYS + ["n", "kj", "f"], rng.choice([1, 1, 2]))
             a["unset_tags"] = ks[0] if len(ks) == 1 and rng.random() < 0.5 else ks
